@@ -2,6 +2,8 @@
    Only pinned statements: each is closed by `exact` of a lemma proved in Proofs/. *)
 From SJ Require Import Base.Bytes Base.FloatB Gen.Tables Model.Read Model.Str Model.Num Model.Value Model.De Model.Ignore Model.Stream.
 From SJ Require Import Proofs.StrRefine Proofs.RkIndep.
+From SJ Require Import Model.Ty Model.DeTyped Proofs.TypedRk Proofs.StrSource.
+From SJ Require Import Base.Utf8.
 
 Definition Eio (cf : cfg) : env := mkEnv RIo TEof cf.
 Definition Esl (cf : cfg) : env := mkEnv RSlice TEof cf.
@@ -31,6 +33,32 @@ Theorem C09_stream : forall cf n itemp bs, (itemp = value_item \/ itemp = ignore
   stream_run n (Eio cf) itemp (stream_init bs) = stream_run n (Esl cf) itemp (stream_init bs).
 Proof. intros cf n itemp bs H. apply stream_run_rk_init; intros; first [apply parse_str_io_slice | apply ignore_str_io_slice | exact H]. Qed.
 
+(* &str source vs slice source: identical on valid UTF-8 input (the hypothesis cannot be dropped: StrRead trusts its input) *)
+Theorem C09_str_slice : forall cf bs, utf8_valid bs = true ->
+  from_input (mkEnv RStr TEof cf) bs = from_input (mkEnv RSlice TEof cf) bs.
+Proof. exact from_input_str_slice. Qed.
+Theorem C09_str_slice_ignored : forall cf bs, utf8_valid bs = true ->
+  ignored_from_input (mkEnv RStr TEof cf) bs = ignored_from_input (mkEnv RSlice TEof cf) bs.
+Proof. exact ignored_from_input_str_slice. Qed.
+Theorem C09_str_slice_raw : forall cf s, utf8_valid (rest s) = true ->
+  raw_value (mkEnv RStr TEof cf) s = raw_value (mkEnv RSlice TEof cf) s.
+Proof. exact raw_value_str_slice. Qed.
+Theorem C09_str_slice_stream : forall cf n itemp bs, (itemp = value_item \/ itemp = ignored_item) -> utf8_valid bs = true ->
+  stream_run n (mkEnv RStr TEof cf) itemp (stream_init bs) = stream_run n (mkEnv RSlice TEof cf) itemp (stream_init bs).
+Proof. exact stream_run_str_slice. Qed.
+
+(* typed targets (universal seed; owned types — a reader cannot lend, so &str targets and the Borrowed/Copied flag are erased by [unb]):
+   equal values and final cursors, or errors with the same code whose index differs by at most one byte (the reader may count a byte it
+   has only peeked), and only for the codes in [may_shift]; Eof-category errors never shift *)
+Theorem C09_typed : forall cf t bs, owned_ty t = true ->
+  tclose unb (from_input_typed (TypedRk.Eio cf) t bs) (from_input_typed (TypedRk.Esl cf) t bs).
+Proof. exact from_input_typed_rk_strong. Qed.
+Theorem C09_typed_eof_same_position : forall cf t bs c i, owned_ty t = true ->
+  from_input_typed (TypedRk.Esl cf) t bs = TErr c i -> category c = CatEof -> from_input_typed (TypedRk.Eio cf) t bs = TErr c i.
+Proof. exact from_input_typed_rk_eof. Qed.
+Theorem C09_typed_shifting_codes_not_eof : forall c, may_shift c = true -> category c <> CatEof.
+Proof. exact may_shift_not_eof. Qed.
+
 (* non-vacuity: an input on which both sides produce a positioned error, and one on which they produce a value *)
 Example C09_example_err : from_input (Eio (mkCfg false false false false)) [91; 49; 101; 57; 57; 57; 10; 93]
                          = Err NumberOutOfRange 7.
@@ -41,3 +69,5 @@ Print Assumptions C09_value.
 Print Assumptions C09_ignored.
 Print Assumptions C09_raw.
 Print Assumptions C09_stream.
+Print Assumptions C09_typed.
+Print Assumptions C09_str_slice.
